@@ -195,6 +195,9 @@ def generate(rng, tier):
         elif k < 0.82:
             ops.append({"t": round(t, 6), "op": "fuzz", "kind": "hostile", "src_port": sp, "dst": dst,
                         "s": rng.randrange(1 << 30)})
+        elif k < 0.84:
+            ops.append({"t": round(t, 6), "op": "fuzz", "kind": "recase", "src_port": 5353, "dst": None,
+                        "s": rng.randrange(1 << 30)})
         elif k < 0.9:
             # well-formed truncated query whose known answers cover the victim's records (stale state if kept)
             ops.append({"t": round(t, 6), "op": "fuzz", "kind": "tcpoison", "src_port": 5353, "dst": dst,
@@ -259,6 +262,14 @@ def execute(scenario, seed, overrides=None):
                     stats["utf8_labels"] += 1
                 if op["src_port"] != 5353:
                     stats["legacy_port_hostile"] += 1
+            elif kind == "recase":
+                # a copy of the announcement the victim is about to receive with a few bits flipped in letters of the
+                # owner name (0x20: the letter case) - DNS names are case-insensitive, it is the same record
+                ty = "".join(c.upper() if c.isalpha() and rng.random() < 0.4 else c for c in CT)
+                if ty == CT:
+                    ty = CT.replace("c", "C", 1)
+                data = wire.encode(wire.response([wire.RR(ty, wire.T_PTR, rng.choice([120, 4500]), "Canary._canary._tcp.local.")]))
+                stats["recased"] = stats.get("recased", 0) + 1
             elif kind == "tcpoison":
                 rec = SvcRecords({"type": VT, "name": "Victim._http._tcp.local.", "port": 8080, "server": "victim.local.",
                                   "addrs": ["10.0.0.1"], "props": {"p": "1"}})
